@@ -27,6 +27,7 @@ func (p *Path) strEq(a, b Value) Value {
 	tt := p.tt()
 	x, y := strBytes(a), strBytes(b)
 	var cs []*Term
+	digestPairs := map[[2]int]bool{}
 	for i := range x {
 		xc, xok := x[i].(int64)
 		yc, yok := y[i].(int64)
@@ -35,6 +36,34 @@ func (p *Path) strEq(a, b Value) Value {
 				return false
 			}
 			continue
+		}
+		// hex digits of blake3 digests: under the stated collision-freeness assumption
+		// H(u) = H(v) <=> u = v, and digests of inputs of different length differ
+		if h1, l1, ok1 := digestNibble(x[i]); ok1 {
+			if h2, l2, ok2 := digestNibble(y[i]); ok2 && l1 == l2 {
+				if h1 == h2 {
+					continue
+				}
+				if h1.Name != h2.Name {
+					return false
+				}
+				k := [2]int{h1.ID, h2.ID}
+				if !digestPairs[k] {
+					digestPairs[k] = true
+					p.stubsHit["blake3 digests compared under assumed collision-freeness (H(u)=H(v) <=> u=v)"] = true
+					for j := range h1.Args {
+						e := tt.Eq(h1.Args[j], h2.Args[j])
+						if e.IsConst() {
+							if e.C == 0 {
+								return false
+							}
+							continue
+						}
+						cs = append(cs, e)
+					}
+				}
+				continue
+			}
 		}
 		e := tt.Eq(p.byteTerm(x[i]), p.byteTerm(y[i]))
 		if e.IsConst() {
